@@ -36,6 +36,11 @@ type Outcome struct {
 	// is compared by the determinism self-test together with the trace hash.
 	Digest  uint64 `json:"digest"`
 	Summary any    `json:"summary,omitempty"`
+	// Poisoned: the code under test did not come back (a hang inside an in-process command), so
+	// process-wide state it owns - metric registries, leaked goroutines - is no longer that of a
+	// fresh process. The violation is reported as found, without minimisation: every further run
+	// in this process would be judged on a state no real execution starts from.
+	Poisoned bool `json:"poisoned,omitempty"`
 }
 
 // AddViolation records a violation (first detail per class wins).
@@ -187,7 +192,7 @@ func Main[S any](t *testing.T, p Prop[S]) {
 	known := loadKnown()
 	rep.Extra = map[string]int64{}
 
-	defer func() {
+	flush := func() {
 		rep.WallS = time.Since(start).Seconds()
 		rep.States = len(States)
 		rep.AllTraces = len(all)
@@ -205,7 +210,8 @@ func Main[S any](t *testing.T, p Prop[S]) {
 		if wantTrace {
 			_ = os.WriteFile(os.Getenv("VERIF_TRACEFILE"), []byte(strings.Join(traceLines, "\n")+"\n"), 0o644)
 		}
-	}()
+	}
+	defer flush()
 
 	rapid.Check(t, func(rt *rapid.T) {
 		if !failing {
@@ -283,6 +289,11 @@ func Main[S any](t *testing.T, p Prop[S]) {
 				b, _ := json.MarshalIndent(map[string]any{"property": p.ID, "test": t.Name(), "class": v.Class, "detail": v.Detail, "scenario": sc}, "", " ")
 				_ = os.WriteFile(failFile, b, 0o644)
 				rep.FailFile = failFile
+			}
+			if out.Poisoned {
+				fmt.Printf("violation %s found; the process state is not trustworthy after a hang, reporting without minimisation\n", v.Class)
+				flush()
+				os.Exit(1)
 			}
 			rt.Fatalf("%s", v.Class)
 		}
